@@ -103,6 +103,86 @@ func vfC07bGen(r *vfRand) string {
 	return q(2)
 }
 
+// twins of internal/json's unexported argument structs (what encoding/json decodes a body into)
+type vfC07bSearchArgs struct {
+	Q       string
+	RepoIDs *[]uint32
+	Opts    *zoekt.SearchOptions
+}
+type vfC07bListArgs struct {
+	Q    string
+	Opts *zoekt.ListOptions
+}
+
+// vfC07bJCase records one request for the model of the handlers' control flow (coq/Model/JsonApi.v): what the
+// decoder, Parse and the searcher did (observed here by calling them directly) and the HTTP status of the handler.
+func vfC07bJCase(searcher zoekt.Searcher, path, method string, body []byte, status int) {
+	isList := path == "/list"
+	var q string
+	decoded, hasIDs, hasOpts := false, false, false
+	maxDocs, shardMax := 0, 0
+	var ids *[]uint32
+	var sopts *zoekt.SearchOptions
+	var lopts *zoekt.ListOptions
+	if isList {
+		var a vfC07bListArgs
+		if json.NewDecoder(bytes.NewReader(body)).Decode(&a) == nil {
+			decoded, q, lopts = true, a.Q, a.Opts
+		}
+	} else {
+		var a vfC07bSearchArgs
+		if json.NewDecoder(bytes.NewReader(body)).Decode(&a) == nil {
+			decoded, q, ids, sopts = true, a.Q, a.RepoIDs, a.Opts
+			hasIDs, hasOpts = a.RepoIDs != nil, a.Opts != nil
+			if a.Opts != nil {
+				maxDocs, shardMax = a.Opts.MaxDocDisplayCount, a.Opts.ShardMaxMatchCount
+			}
+		}
+	}
+	pclass, sclass := 0, 0
+	if decoded && (isList || q != "") {
+		var pq query.Q
+		var perr error
+		if vfC07bStage(func() { pq, perr = query.Parse(q) }) != "" {
+			return // reported by the oracle
+		}
+		if perr != nil {
+			pclass = 1
+		} else {
+			var err error
+			pan := vfC07bStage(func() {
+				if isList {
+					_, err = searcher.List(context.Background(), pq, lopts)
+				} else {
+					if ids != nil {
+						pq = query.NewAnd(pq, query.NewRepoIDs(*ids...))
+					}
+					o := zoekt.SearchOptions{}
+					if sopts != nil {
+						o = *sopts
+					}
+					_, err = searcher.Search(context.Background(), pq, &o)
+				}
+			})
+			if pan != "" {
+				return // reported by the oracle
+			}
+			if err != nil {
+				sclass = 1
+			}
+		}
+	}
+	nz := func(n int) uint64 {
+		if n == 0 {
+			return 0
+		}
+		return 1
+	}
+	coq := cTuple(cBool(isList), cBool(method == "POST"), cBool(decoded), cBool(q == ""), cBool(hasIDs), cBool(hasOpts), cN(nz(maxDocs)), cN(nz(shardMax)),
+		cN(uint64(pclass)), cN(uint64(sclass)), cN(uint64(status)))
+	vfEmit(map[string]any{"kind": "jcase", "coq": coq, "sample": map[string]any{"path": path, "method": method, "body": string(body[:min(len(body), 200)]), "status": status}})
+}
+
 func TestVerifC07b(t *testing.T) {
 	r := vfNewRand(vfSeed() + 77)
 	n := vfN(400)
@@ -209,6 +289,8 @@ func TestVerifC07b(t *testing.T) {
 			code, p := post(path, body)
 			if p != "" {
 				vfOracleFail("json"+path+":"+p, "JSON API "+path+" panics or answers with a malformed body: "+p, map[string]any{"body": string(body), "path": path})
+			} else {
+				vfC07bJCase(searcher, path, "POST", body, code)
 			}
 			outcome["json"+path] = fmt.Sprint(code)
 			if perr != nil && s != "" && utf8.ValidString(s) && code != 400 {
@@ -245,6 +327,16 @@ func TestVerifC07b(t *testing.T) {
 		}
 		bodies = append(bodies, sb.String())
 	}
+	for _, m := range []string{"GET", "PUT", "DELETE"} {
+		for _, path := range []string{"/search", "/list"} {
+			rec := httptest.NewRecorder()
+			if p := vfC07bStage(func() { handler.ServeHTTP(rec, httptest.NewRequest(m, path, strings.NewReader("{\"Q\":\"a\"}"))) }); p != "" {
+				vfOracleFail("json"+path+":"+p, "JSON API "+path+" panics on a "+m+" request: "+p, map[string]any{"method": m, "path": path})
+			} else {
+				vfC07bJCase(searcher, path, m, []byte("{\"Q\":\"a\"}"), rec.Code)
+			}
+		}
+	}
 	for _, body := range bodies {
 		for _, path := range []string{"/search", "/list"} {
 			code, p := post(path, []byte(body))
@@ -254,6 +346,8 @@ func TestVerifC07b(t *testing.T) {
 			}
 			if p != "" {
 				vfOracleFail("json"+path+":"+p, "JSON API "+path+" panics or answers with a malformed body: "+p, map[string]any{"body": body, "path": path})
+			} else {
+				vfC07bJCase(searcher, path, "POST", []byte(body), code)
 			}
 			vfEmit(map[string]any{"kind": "stage", "key": path + body, "nontrivial": code == 200, "class": []string{"json-body", fmt.Sprintf("json%s=%d", path, code)},
 				"sample": map[string]any{"body": shown, "path": path, "code": code}})
